@@ -427,6 +427,12 @@ func ZZC10_reg_list_race() { zzRegConcurrent(1, true) }
 
 func zzRegConcurrent(nTasks int, lister bool) {
 	w := zzRegSetup()
+	if lister {
+		// the listing race is a known finding under one key (the stale entry shows in the unfiltered
+		// listing); the order of the closing listings is kept fixed here so that the same stale entry
+		// does not surface under a second label
+		w.orderSet, w.filteredFirst = true, false
+	}
 	ctx := context.Background()
 	for i := range w.arts {
 		if zzBool("pre_live") {
